@@ -42,6 +42,8 @@ STRUCTURAL = {
     "append", "insert", "atleast_3d", "dot", "matmul", "outer", "kron", "tensordot", "inner",
     "apply_along_axis", "trapezoid", "trapz", "isin", "result_type", "iterable",
 }
+# value-dependent functions that are only supported on concrete (index / integer) data: NumPy's own result is used
+CONCRETE_ONLY = {"argsort", "argmin", "argmax", "searchsorted", "lexsort", "ceil", "floor", "log10", "bincount", "count_nonzero", "sign"}
 CONSTANTS = {
     "ndarray", "float64", "float32", "int64", "int32", "bool_", "newaxis", "inf", "nan", "ufunc",
     "number", "integer", "floating", "generic", "dtype", "intp", "object_", "errstate", "finfo",
@@ -405,6 +407,17 @@ class SymNP:
 
             structural.__name__ = name
             return structural
+        if name in CONCRETE_ONLY:
+            USED.add(name)
+            real = getattr(_np, name)
+
+            def concrete_only(*a, **k):
+                if any(_contains_sym(x) for x in a) or any(_contains_sym(v) for v in k.values()):
+                    raise UnmodelledDependency(f"numpy.{name} on symbolic values")
+                return real(*a, **k)
+
+            concrete_only.__name__ = name
+            return concrete_only
         raise UnmodelledDependency(f"numpy.{name} is neither structural nor modelled")
 
     @staticmethod
